@@ -707,7 +707,19 @@ def _parse_colang_files_recursively(
 
         # If there are any new imports, we load them
         if raw_config.get("import_paths"):
-            _load_imported_paths(raw_config, colang_files)
+            try:
+                _load_imported_paths(raw_config, colang_files)
+            except ValueError as e:
+                # An import of the current file that cannot be resolved is an error
+                # in that file.
+                if any(
+                    import_path not in raw_config["imported_paths"]
+                    for import_path in _parsed_config.get("import_paths", [])
+                ):
+                    raise ColangParsingError(
+                        f"Error while loading the imports of Colang file: {current_path}\n{e}"
+                    ) from e
+                raise
 
     if colang_version == "2.x" and _has_input_output_config_rails(raw_config):
         # raise deprecation warning
